@@ -1,6 +1,6 @@
 ------------------------------ MODULE MCMethods ------------------------------
 EXTENDS Methods, Json
-CONSTANTS Emit, NMethods, MaxSites
+CONSTANTS Emit, NMethods, MaxSites, Ctxs   \* Ctxs: where a top-level call may sit: plain | if-cond | arg | block | while-cond
 
 MCNames == IF NMethods = 2 THEN {"ma", "mb"} ELSE {"ma", "mb", "mc"}
 Bodies == [k : {"param", "lit"}, callee : {""}] \cup [k : {"call"}, callee : MCNames]
@@ -9,7 +9,7 @@ Perms(S) == {s \in [1..Cardinality(S) -> S] : \A i, j \in 1..Cardinality(S) : i 
 
 VARIABLE prog
 MCInit == prog \in {p \in [body : [MCNames -> Bodies],
-                          sites : UNION {[1..n -> [callee : MCNames, c : Classes3]] : n \in 1..MaxSites},
+                          sites : UNION {[1..n -> [callee : MCNames, c : Classes3, ctx : Ctxs]] : n \in 1..MaxSites},
                           order : Perms(MCNames)] :
                     /\ Acyclic(p)
                     /\ \A m \in MCNames : p.body[m].k = "call" => p.body[m].callee # m
